@@ -54,6 +54,9 @@ type Contract struct {
 	Modifies    []string
 	Loops       map[int][]*Clause
 	LoopAsserts map[int][]*Clause // proved at every back edge, then available to the invariant proofs
+	// PointAsserts: "at +N assert expr" - proved, then assumed, just before the first instruction of source
+	// line (first line of the function + N) executes; stepping stones for long straight-line code
+	PointAsserts map[int][]*Clause
 	Implements  string
 	Opts        map[string]string
 	Src         string
@@ -240,6 +243,43 @@ func (S *Specs) loadSpecFile(path string, repoFile bool, pkg string) error {
 			} else {
 				cur.Opts[rest] = "true"
 			}
+		case kw == "at":
+			// at +N assert[tags] expr
+			if len(fields) < 3 || !strings.HasPrefix(fields[1], "+") {
+				return fmt.Errorf("%s: expected 'at +N assert expr'", src)
+			}
+			n, err := strconv.Atoi(fields[1][1:])
+			if err != nil {
+				return fmt.Errorf("%s: bad line offset", src)
+			}
+			r2 := strings.TrimSpace(strings.TrimPrefix(rest, fields[1]))
+			if r2 == "cut" {
+				// at +N cut: a new segment starts after the assertions of this line
+				if cur.PointAsserts == nil {
+					cur.PointAsserts = map[int][]*Clause{}
+				}
+				cur.PointAsserts[n] = append(cur.PointAsserts[n], &Clause{Kind: "cut", Text: "true", Src: src, Loop: n})
+				last = nil
+				continue
+			}
+			keep := false
+			if strings.HasPrefix(r2, "keep ") || strings.HasPrefix(r2, "keep[") {
+				keep = true
+				r2 = "assert" + strings.TrimPrefix(r2, "keep")
+			}
+			m := reTagged.FindStringSubmatch(r2)
+			if m == nil || m[1] != "assert" {
+				return fmt.Errorf("%s: expected 'at +N assert|keep expr' or 'at +N cut'", src)
+			}
+			cl := &Clause{Kind: "passert", Tags: parseTags(m[2]), Text: m[3], Src: src, Loop: n}
+			if keep {
+				cl.Kind = "pkeep"
+			}
+			if cur.PointAsserts == nil {
+				cur.PointAsserts = map[int][]*Clause{}
+			}
+			cur.PointAsserts[n] = append(cur.PointAsserts[n], cl)
+			last = cl
 		case kw == "loop":
 			// loop N invariant[tags] expr
 			n, err := strconv.Atoi(fields[1])
@@ -355,6 +395,9 @@ func (S *Specs) finish() error {
 			all = append(all, l...)
 		}
 		for _, l := range c.LoopAsserts {
+			all = append(all, l...)
+		}
+		for _, l := range c.PointAsserts {
 			all = append(all, l...)
 		}
 		for _, cl := range all {
